@@ -275,6 +275,20 @@ def support(rng, tier):
                 res.append((f'{method}_invariant_incr{fi}_{rep}', bool(ok), dict(method=method, n_cond=int(nc))))
             s = compare(sqrt_transform(RDMs(A)), sqrt_transform(RDMs(B)), method)
             res.append((f'{method}_invariant_sqrt_transform_{rep}', bool(np.allclose(s, base, atol=1e-12)), dict(method=method)))
+        # rank-transformed RDMs (any tie method) and increasing transforms of them are increasing images of the data as well
+        rank_transform = importlib.import_module('rsatoolbox.rdm.transform').rank_transform
+        transform = importlib.import_module('rsatoolbox.rdm.transform').transform
+        At = A.copy()
+        At[:, 1] = At[:, 0]          # a tie
+        for method in ['spearman', 'rho-a']:
+            base = compare(RDMs(At), RDMs(B), method)
+            for rm in ['average', 'min', 'max', 'dense']:
+                r = rank_transform(RDMs(At), method=rm)
+                ok = np.allclose(compare(r, RDMs(B), method), base, atol=1e-12) and \
+                    np.allclose(compare(RDMs(B), r, method), base.T, atol=1e-12) and \
+                    np.allclose(compare(sqrt_transform(r), RDMs(B), method), base, atol=1e-12) and \
+                    np.allclose(compare(transform(r, lambda x: x ** 3), RDMs(B), method), base, atol=1e-12)
+                res.append((f'{method}_invariant_rank_transform_{rm}_{rep}', bool(ok), dict(method=method, rank_method=rm)))
         for method in ['cosine', 'cosine_cov']:
             base = compare(A, B, method)
             res.append((f'{method}_scale_invariant_{rep}', bool(np.allclose(compare(3.5 * A, 0.25 * B, method), base, atol=1e-9)),
